@@ -72,6 +72,40 @@ def cell_eval(ref, formula, inputs=None, cache=True):
     return sol[out]
 
 
+_func_cache = {}
+
+
+def operands_kept(formula, inputs):
+    """Call the compiled formula on Ranges holding `inputs` (name -> python value) and
+    say which of them no longer hold what they were given (XlOps!OperandsKept)."""
+    f = F()
+    import numpy as np
+    from formulas.ranges import Ranges
+    func = _func_cache.get(formula)
+    if func is None:
+        if len(_func_cache) > 2000:
+            _func_cache.clear()
+        func = _func_cache[formula] = f.Parser().ast(formula)[1].compile()
+    given = {}
+    args = []
+    for name in func.inputs:
+        v = inputs[name]
+        if isinstance(v, list):
+            v = v[0][0]
+        arr = np.empty((1, 1), object)
+        arr[0, 0] = v
+        rg = Ranges().push(name, arr)
+        given[name] = (rg, v)
+        args.append(rg)
+    func(*args)
+    changed = []
+    for name, (rg, v) in given.items():
+        now = rg.value[0, 0]
+        if not (now is v or (type(now) is type(v) and now == v)):
+            changed.append((name, repr(v), repr(now)))
+    return changed
+
+
 def formula_eval(formula):
     """Parser().ast(formula)[1].compile()() - the literal route."""
     f = F()
